@@ -166,6 +166,11 @@ def env_vars(seed):
 def env_valid(tool, env):
     if env.inplace and not (tool == "veftopng" and env.in_kind == "path" and env.out_kind == "path"):
         return False
+    if env.out_kind == "devstdout" and (tool not in STDOUT_OK):
+        return False          # veftopng prints its progress text there; not an image channel
+    if env.in_kind == "devstdin":
+        # the process's own stdin, named as a file; a pipe: no size (pixtopgm needs one)
+        return tool != "pixtopgm" and (env.out_kind == "path" or tool in STDOUT_OK)
     if env.in_kind in ("redir", "redir_off"):
         # stdin redirected from a regular file (`tool - < file`), at offset 0 or already advanced
         return tool in STDIN_OK and (env.out_kind == "path" or tool in STDOUT_OK)
@@ -189,7 +194,9 @@ def build_argv(opts, env, tool=None):
     if env.inplace:
         inp = outp
     pos = []
-    if env.in_kind in ("path", "fifo"):
+    if env.in_kind == "devstdin":
+        pos.append("/dev/stdin")
+    elif env.in_kind in ("path", "fifo"):
         pos.append(inp)
     elif env.in_kind in ("dash", "redir", "redir_off"):
         pos.append("-")
@@ -197,6 +204,8 @@ def build_argv(opts, env, tool=None):
         pos.append(outp)
     elif env.out_kind == "dash":
         pos.append("-")
+    elif env.out_kind == "devstdout":
+        pos.append("/dev/stdout")
     return pos + argv if env.late_opts and pos else argv + pos
 
 
